@@ -91,6 +91,18 @@ func genC05(t *rapid.T) C05Case {
 			}
 		}
 	}
+	// a chain of includes nested 12 deep (any depth is legal as long as there is no cycle)
+	if rapid.IntRange(0, 7).Draw(t, "deepchain") == 0 {
+		for i := 1; i <= 12; i++ {
+			lines := []ragen.Line{{K: ragen.KEntry, T: fmt.Sprintf("deep%02d", i)}}
+			if i < 12 {
+				lines = append(lines, ragen.Line{K: ragen.KInclude, File: fmt.Sprintf("chain%02d", i+1)})
+			}
+			g.Prog.Files[fmt.Sprintf("include/chain%02d.ra", i)] = lines
+		}
+		g.Prog.Main = append(g.Prog.Main, ragen.Line{K: ragen.KInclude, File: "chain01"})
+		g.Labels["include-chain-12-deep"] = true
+	}
 	// a word list of real size (the parsed text is well above 1 KiB)
 	if rapid.IntRange(0, 5).Draw(t, "biglist") == 0 {
 		var big []ragen.Line
